@@ -214,17 +214,19 @@ func (fv *FV) execBlock(st *State, b *ssa.BasicBlock, pred *ssa.BasicBlock) {
 		if lc.HasMod {
 			fv.applyModifies(st, lc.Modifies, env)
 		} else if all {
-			// calls inside: havoc every heap known so far plus those used by callees
-			fv.havocAllHeaps(st)
+			// calls inside: every heap may change, within the function's frame
+			keys := make([]string, 0)
+			for k := range fv.heapsUsed {
+				keys = append(keys, k)
+			}
+			fv.havocLoopHeaps(st, keys)
+			fv.havocGhostInFrame(st)
 		} else {
 			keys := make([]string, 0, len(mods))
 			for k := range mods {
 				keys = append(keys, k)
 			}
-			sort.Strings(keys)
-			for _, k := range keys {
-				fv.havocHeap(st, k)
-			}
+			fv.havocLoopHeaps(st, keys)
 		}
 		na := fv.fresh("alloc", "Int")
 		st.assume(fmt.Sprintf("(>= %s %s)", na, st.alloc))
